@@ -40,7 +40,8 @@ fn cuts_for(len: usize, map: &[refcodec::Field]) -> Vec<usize> {
 
 pub fn check(c: &Case) -> CheckResult {
     let m = to_crate(&c.msg);
-    let bytes = guard(|| m.as_bytes()).map_err(|p| Violation::from_panic("Message::as_bytes", &p))?;
+    let bytes =
+        guard(|| m.as_bytes()).map_err(|p| Violation::from_panic("Message::as_bytes", &p))?;
     let (_, map) = refcodec::encode_with_map(&c.msg);
     let storage = c.msg.storage.is_some();
     let len = bytes.len();
@@ -52,10 +53,23 @@ pub fn check(c: &Case) -> CheckResult {
     let mut in_field = 0u64;
     for &cut in &cuts {
         let prefix = &bytes[..cut];
-        let role = map.iter().find(|f| f.start < cut && cut < f.end).map(|f| f.role);
-        let role_s = role.map(|r| format!("{:?}", r)).unwrap_or_else(|| "boundary".to_string());
+        let role = map
+            .iter()
+            .find(|f| f.start < cut && cut < f.end)
+            .map(|f| f.role);
+        let role_s = role
+            .map(|r| format!("{:?}", r))
+            .unwrap_or_else(|| "boundary".to_string());
         let r = guard(|| dlt_message(prefix, None, storage).map(|(rest, pm)| (rest.len(), pm)))
-            .map_err(|p| Violation::from_panic(&format!("dlt_message on the {}-byte prefix of a {}-byte message", cut, len), &p))?;
+            .map_err(|p| {
+                Violation::from_panic(
+                    &format!(
+                        "dlt_message on the {}-byte prefix of a {}-byte message",
+                        cut, len
+                    ),
+                    &p,
+                )
+            })?;
         match r {
             Err(DltParseError::IncompleteParse { needed }) => {
                 if let Some(n) = needed {
@@ -79,8 +93,18 @@ pub fn check(c: &Case) -> CheckResult {
         }
         // under a filter configuration a prefix is incomplete as well (never a filtered-out marker)
         if let Some(f) = &filter {
-            let r = guard(|| dlt_message(prefix, Some(f), storage).map(|(rest, pm)| (rest.len(), pm)))
-                .map_err(|p| Violation::from_panic(&format!("dlt_message with filter #{} on the {}-byte prefix of a {}-byte message", fidx, cut, len), &p))?;
+            let r = guard(|| {
+                dlt_message(prefix, Some(f), storage).map(|(rest, pm)| (rest.len(), pm))
+            })
+            .map_err(|p| {
+                Violation::from_panic(
+                    &format!(
+                        "dlt_message with filter #{} on the {}-byte prefix of a {}-byte message",
+                        fidx, cut, len
+                    ),
+                    &p,
+                )
+            })?;
             match r {
                 Err(DltParseError::IncompleteParse { needed }) => {
                     if let Some(n) = needed {
@@ -99,7 +123,9 @@ pub fn check(c: &Case) -> CheckResult {
             }
         }
         if storage {
-            let r = guard(|| dlt_consume_msg(prefix).map(|(rest, c)| (rest.len(), c))).map_err(|p| Violation::from_panic(&format!("dlt_consume_msg on a {}-byte prefix", cut), &p))?;
+            let r = guard(|| dlt_consume_msg(prefix).map(|(rest, c)| (rest.len(), c))).map_err(
+                |p| Violation::from_panic(&format!("dlt_consume_msg on a {}-byte prefix", cut), &p),
+            )?;
             match (cut, r) {
                 (0, Ok((_, None))) => {}
                 (c, Err(DltParseError::IncompleteParse { needed })) if c > 0 => {
@@ -118,14 +144,28 @@ pub fn check(c: &Case) -> CheckResult {
                 }
             }
         }
-        if matches!(role, Some(Role::LenPrefix | Role::Value | Role::TypeInfo | Role::Len | Role::U32Field | Role::StorageTime | Role::Pattern | Role::Id | Role::Text)) {
+        if matches!(
+            role,
+            Some(
+                Role::LenPrefix
+                    | Role::Value
+                    | Role::TypeInfo
+                    | Role::Len
+                    | Role::U32Field
+                    | Role::StorageTime
+                    | Role::Pattern
+                    | Role::Id
+                    | Role::Text
+            )
+        ) {
             in_field += 1;
         }
     }
     pass.subcases = cuts.len() as u64;
     pass.nontrivial = in_field > 0;
     pass.classes.push(c.msg.payload_kind());
-    pass.classes.push(if storage { "storage" } else { "no-storage" });
+    pass.classes
+        .push(if storage { "storage" } else { "no-storage" });
     if len > 4096 {
         pass.classes.push("selected-cuts(len>4096)");
     }
@@ -150,7 +190,13 @@ pub fn run(run: &Run) {
          message with at least one cut strictly inside a multi-byte field; distinct by message; sub_evaluations counts the prefixes",
     );
     run.regressions(&replay);
-    run.random("prefixes", run.cases(400_000, 4_000_000), 0.5, strategy, check);
+    run.random(
+        "prefixes",
+        run.cases(400_000, 4_000_000),
+        0.5,
+        strategy,
+        check,
+    );
 }
 
 pub fn replay(_section: &str, case: &Json) -> Option<CheckResult> {
